@@ -12,7 +12,7 @@ SPEC = {
             "running-average and 24 correlation-function parameter tuples (coordinate type; coordinate_p2 for the vector; cross-correlation with "
             "a second variable b = d^2 for the scalar), every 5th scalar word also as a run starting at step 100; states = distinct output file contents, transitions = Colvars steps; "
             "a case is non-trivial when its files were written and every number compared"
-            " Later additions: a variable with timeStepFactor 2 in the trajectory part (its column is present at every line; its velocity column is the difference of its last two values over the steps between them); a unit-vector variable with its velocity (chord or geodesic laid out at either end).",
+            " Later additions: a variable with timeStepFactor 2 in the trajectory part (its column is present at every line; its velocity column is the difference of its last two values over the steps between them); a unit-vector variable with its velocity (chord or geodesic laid out at either end); new runs in the same process of an engine that counts each run's steps from the run's first step.",
     "assumptions": ["the step column of the running-average file carries the step number of the simulation",
                     "either normalisation (N or N-1) of the standard deviation is accepted",
                     "correlation functions of coordinate (and coordinate_p2) type, C_ab(lag) = <a(t) b(t-lag)>; time origins = the N most recent steps with a "
